@@ -198,8 +198,18 @@ class NotifFamily(Family):
                 await asyncio.sleep(ch.delay(0.0, 6.0))
                 if m.P is None and m.started and ch.chance(op['p_fork']) and min(m.B, m.D) >= 2:
                     d = 1 + ch.choose(2)
-                    m.P = max(0, min(m.B, m.D) - d)
-                    m.D = m.D + ch.choose(2) + (1 if m.D <= m.B else 0)
+                    kind = ch.choose(4)
+                    if kind == 0:
+                        # forced `reorg d` by the admin: blocks undone, the daemon unchanged
+                        m.P = max(0, m.B - d)
+                    elif kind == 1:
+                        # the daemon moves to a shorter branch (invalidateblock) and the admin forces a
+                        # reorg: the processor ends below the height it last reported
+                        m.P = max(0, min(m.B, m.D) - d)
+                        m.D = max(m.P, m.D - ch.choose(2) - 1)
+                    else:
+                        m.P = max(0, min(m.B, m.D) - d)
+                        m.D = m.D + ch.choose(2) + (1 if m.D <= m.B else 0)
                 else:
                     m.D += 1 + ch.choose(2)
             # settle: freeze the daemon, let both sources report at the final height
